@@ -31,11 +31,19 @@ def scratch_repo():
 def demo_files(wt):
     rc, out = sh(['git', 'status', '--porcelain', '--untracked-files=all'], cwd=wt)
     files = []
+    created = set()
+    pp = os.path.join(wt, 'patch.diff')
+    if os.path.exists(pp):
+        for l in open(pp):
+            if l.startswith('+++ b/'):
+                created.add(l[6:].strip())
     for l in out.splitlines():
         if l.startswith('??'):
             f = l[3:].strip()
             if f in ('patch.diff', 'meta.txt', 'p', 'PROPERTY.txt') or f.endswith('.orig') or f.endswith('.rej') or os.path.basename(f).startswith('gofasta'):
                 continue
+            if f in created:
+                continue  # a new source file that is part of the change itself
             files.append(f)
     return files
 
